@@ -257,6 +257,24 @@ func (x *Exec) run() {
 		// function never returns normally (all paths panic): nothing to prove about post
 		return
 	}
+	// ghost frame: a ghost variable changed by the body must be mentioned in the postconditions
+	mentioned := map[string]bool{}
+	for _, cl := range ct.Ensures {
+		for _, g := range ghostNameRe.FindAllString(cl.Text, -1) {
+			mentioned[g] = true
+		}
+	}
+	for _, gp := range sortedKeys(fin.vars) {
+		if !strings.HasPrefix(gp, "ghost:g_M") || mentioned[strings.TrimPrefix(gp, "ghost:")] {
+			continue
+		}
+		if !sameValue(fin.vars[gp], pre.vars[gp]) {
+			pv, _ := pre.vars[gp].(Scalar)
+			fv, _ := fin.vars[gp].(Scalar)
+			c.oblige("frame", "ghost."+strings.TrimPrefix(gp, "ghost:"), x.props, x.pos(fd.Pos()), fin.pc, eq(fv.T, pv.T),
+				"ghost variable "+strings.TrimPrefix(gp, "ghost:")+" is unchanged (it is not mentioned in the postconditions)")
+		}
+	}
 	// parameters in postconditions denote their entry values
 	for _, pp := range x.paramPaths {
 		for k, v := range pre.vars {
